@@ -125,6 +125,12 @@ Parse(d) ==
 (***************************************************************************)
 (* Unparse                                                                  *)
 (***************************************************************************)
+\* names that YAML reads as integers when written unquoted (spelling choice `ints')
+IsDecimal(s) == s # "" /\ (\A i \in 1..Len(s) : DigitVal(Ch(s, i)) < 10) /\ (Len(s) = 1 \/ Ch(s, 1) # "0") /\ Len(s) <= 8
+RECURSIVE DecValAcc(_, _)
+DecValAcc(s, acc) == IF s = "" THEN acc ELSE DecValAcc(DropStr(s, 1), acc * 10 + DigitVal(Ch(s, 1)))
+NameDoc(s, sp) == IF sp.ints /\ IsDecimal(s) THEN DInt(DecValAcc(s, 0)) ELSE DStr(s)
+
 TimesDoc(p) == IF p.lo = p.hi THEN DInt(p.lo) ELSE DMap(<<DPair("min", DInt(p.lo)), DPair("max", DInt(p.hi))>>)
 HasTimes(p) == ~(p.lo = 1 /\ p.hi = 1)
 WithSibling(pairs, p) == DMap(pairs \o (IF HasTimes(p) THEN <<DPair("times", TimesDoc(p))>> ELSE <<>>))
@@ -135,11 +141,11 @@ KeyOfKind(k) == CASE k \in {"and", "oand"} -> "$and" [] k \in {"or", "oor"} -> "
 
 RECURSIVE UnparseItem(_, _), UnparseOp(_, _), UnparseField(_, _)
 UnparseField(fp, sp) ==
-    CASE fp.k = "flit" -> DStr(fp.name)
+    CASE fp.k = "flit" -> NameDoc(fp.name, sp)
       [] fp.k = "for"  -> DList(<<DMap1("$or", DList([n \in DOMAIN fp.kids |-> UnparseField(fp.kids[n], sp)]))>>)
       [] OTHER -> DStr(CapText(fp, sp.upper))
 UnparseOp(q, sp) ==
-    CASE q.k = "lit" -> DStr(q.name)
+    CASE q.k = "lit" -> NameDoc(q.name, sp)
       [] q.k \in {"ocap", "rcap"} -> DStr(CapText(q, sp.upper))
       [] q.k = "deref" ->
             WithSibling(<<DPair("$deref", DMap([n \in DOMAIN q.kids |-> DPair(q.kids[n].name, UnparseField(q.kids[n].kids[1], sp))]))>>, q)
@@ -153,6 +159,6 @@ UnparseItem(p, sp) ==
       [] OTHER -> WithSibling(<<DPair(KeyOfKind(p.k), DList([n \in DOMAIN p.kids |-> UnparseItem(p.kids[n], sp)]))>>, p)
 Unparse(P, sp) == DList([n \in DOMAIN P.kids |-> UnparseItem(P.kids[n], sp)])
 
-Spellings == { [times |-> t, upper |-> u] : t \in {"body", "sib"}, u \in BOOLEAN }
+Spellings == { [times |-> t, upper |-> u, ints |-> i] : t \in {"body", "sib"}, u \in BOOLEAN, i \in BOOLEAN }
 RoundTrip(P) == \A sp \in Spellings : Parse(Unparse(P, sp)) = P
 =============================================================================
